@@ -89,8 +89,13 @@ claim('C20',
       'Fragment (bounded symbolic): (a) every public integrator, Spectrum method, from_phi, likelihood, optimiser helper, PhiManip non-pulse function and Numerics helper leaves its array/list arguments unchanged (deep snapshot vs after, element identity or solver equality) and the integrators return a fresh non-aliasing array, also on the T==initial_t and frozen shortcuts; (b) layout independence: one_pop..five_pops on 13 view patterns of phi (C/F order, transposes, slices, negative strides) and 4 of xx equal the result on a contiguous copy for all density values (kernels from LLVM IR with the pointer semantics of the compiled code); (c) value-keyed caches (_dbeta_cache, Godambe.cache) are transparent for independent symbolic keys; integer-keyed caches by enumeration.',
       'doubles as reals; PYTHONHASHSEED / fresh-interpreter comparison / Demes.cache outside; integer-keyed caches covered by enumeration (labelled); one time step in (a)/(b)',
       'DESIGN.md 3/C20')
+
+claim('C15',
+      'Fragment (bounded symbolic): all 104 library model functions exposing __param_names__ (1-3 population, Portik, demography+selection) are run on symbolic parameters (real PhiManip, Integration drivers incl. C kernels from LLVM IR, from_phi; tridiagonal contract, small rational grid, k steps per epoch): no exception on any feasible path, spectrum of shape ns+1 with the two corners masked and extrap_x set, one parameter more/fewer rejected, every named parameter is used, selection models hand their gammas to every epoch; 163 nesting pairs (sym/asym with equal rates, zero migration, zero-length epochs, gamma1=gamma2, gamma=0, constant-size growth models vs constant models, cross-family twins) are proved to issue solver-equal tridiagonal systems call by call and hence equal spectra.',
+      'doubles as reals; finiteness/non-negativity and label-swap equivariance outside; EXP/POW uninterpreted with positivity axioms; at most 3 steps per epoch; mismatching call sequences are refined inline at rational points before anything is reported',
+      'DESIGN.md 3/C15')
 _todo = 'check not built yet (in progress in this session; see DESIGN.md for the plan)'
-for _p in ['C15']:
+for _p in []:
     NA[_p] = _todo
 NA['C16'] = ('every path from a demes graph to a spectrum goes through the third-party demes package (attrs validators, float() coercion, '
              'math.isclose, YAML) which forces all symbolic values to concrete floats: nothing is left for a solver to quantify over (DESIGN.md section 4)')
